@@ -420,8 +420,18 @@ def judge_traces(ctx, per_case, name):
     ctx.coverage["transitions"] = ctx.coverage.get("transitions", 0) + res["generated"]
     if res["accepted"]:
         return
-    for i, (case, ls) in enumerate(per_case):
-        r = tlc_trace(ctx, ls, "%s-%d" % (name, i))
+    # find the offending runs: split the concatenation into chunks, then single runs (in parallel)
+    def check_chunk(lo_hi):
+        lo, hi = lo_hi
+        r = tlc_trace(ctx, [l for _, ls in per_case[lo:hi] for l in ls], "%s-%d-%d" % (name, lo, hi))
+        return lo, hi, r
+    chunks = [(i, min(i + 8, len(per_case))) for i in range(0, len(per_case), 8)]
+    with concurrent.futures.ThreadPoolExecutor(max_workers=8) as ex:
+        bad = [(lo, hi) for lo, hi, r in ex.map(check_chunk, chunks) if not r["accepted"]]
+        singles = [(i, i + 1) for lo, hi in bad for i in range(lo, hi)]
+        results = list(ex.map(check_chunk, singles))
+    for lo, hi, r in results:
+        case, ls = per_case[lo]
         if r["accepted"]:
             continue
         if r["inv"]:
@@ -533,14 +543,15 @@ def kill_runs(ctx, drv, bl, workers=16):
 ERRNOS = ("ENOSPC", "EIO", "EACCES", "EMFILE")
 
 
-def fault_runs(ctx, drv, bl, errnos=ERRNOS, workers=16):
+def fault_runs(ctx, drv, bl, errnos=ERRNOS, workers=16, only_calls=None):
+    """Fail each system call of each operation once. Returns (runs, requested, per_case trace lines)."""
     jobs = []
     for b in bl:
         reg = b["run"]["parsed"]["region"]
         commit = next((i for i, r in enumerate(reg) if r["name"] in ("renameat", "renameat2", "rename", "unlinkat", "unlink")
                        and r["ret"] == 0 and b["case"].role(r["strs"][-1 if r["name"].startswith("rename") else 0]) in ("F", "G")), None)
         for idx, call in enumerate(reg):
-            if call["name"] == "close":
+            if call["name"] == "close" or (only_calls and call["name"] not in only_calls):
                 continue
             for en in errnos:
                 jobs.append((b, idx, en, commit))
@@ -566,13 +577,17 @@ def fault_runs(ctx, drv, bl, errnos=ERRNOS, workers=16):
                 diff = sorted(k for k in set(before) | set(after) if before.get(k) != after.get(k)
                               and k not in ("base/.tmp/", "pw"))
                 view = view_of(c, drv.pi(c.base), c.old)
-                out = ("ok", c, idx, en, call, {"res": r["res"], "diff": diff, "view": view}, commit)
+                evs, _ = events_of(c, reg)
+                ok = r["res"]["ok"] or c.op == "remove"
+                lines = [dict(ev="reset", **c.ctx())] + evs + [{"ev": "ret", "r": "ok" if ok else "fail"}]
+                out = ("ok", c, idx, en, call, {"res": r["res"], "diff": diff, "view": view, "lines": lines}, commit)
         shutil.rmtree(c.root, ignore_errors=True)
         return out
 
     with concurrent.futures.ThreadPoolExecutor(max_workers=workers) as ex:
         results = list(ex.map(one, jobs))
     n = 0
+    per_case = []
     for st, c, idx, en, call, info, commit in results:
         where = "%s#%d" % (call["name"], idx)
         if st == "inconclusive":
@@ -583,6 +598,8 @@ def fault_runs(ctx, drv, bl, errnos=ERRNOS, workers=16):
             ctx.violation("C15", "fault-crash:%s:%s" % (c.name, call["name"]), "%s under %s: %s" % (where, en, info))
             continue
         res, diff, view = info["res"], info["diff"], info["view"]
+        fc = Case("%s[%s=%s]" % (c.name, where, en), c.op)
+        per_case.append((fc, info["lines"]))
         after_commit = commit is not None and idx > commit
         if c.op == "remove":
             continue        # remove reports nothing, so there is no "reported failure" to judge
@@ -601,4 +618,4 @@ def fault_runs(ctx, drv, bl, errnos=ERRNOS, workers=16):
                               "%s failed with %s, success was reported, but the result is %s instead of %s" % (where, en, view, bview))
         if n % 97 == 0:
             ctx.sample({"fault": c.name, "call": where, "errno": en, "reported_ok": res["ok"], "changed": diff})
-    return n, len(jobs)
+    return n, len(jobs), per_case
